@@ -58,6 +58,7 @@ static double cutoff_of(const Box &B, const json &cut) {
     c = double(hs[size_t(cut.at("dir").get<int>())]) / double(cut.at("n").get<int>());
     int u = cut.at("ulp");
     for (int i = 0; i < std::abs(u); ++i) c = std::nextafter(c, u > 0 ? HUGE_VAL : 0.0);
+    if (cut.contains("relexp")) c *= 1.0 + std::ldexp(1.0, -cut.at("relexp").get<int>());  // a hair above height/n
   }
   return std::min(c, top);
 }
@@ -97,14 +98,22 @@ static Config config_of(const json &c) {
       const std::array<double, 3> &q = C.pos.at(ref);
       double s[3];
       for (size_t k = 0; k < 3; ++k) s[k] = double(b["sh"][k].get<long>());
+      // "fine" = +-j: the offset is scaled by (1 +- 2^-j): a distance a hair inside / outside the cutoff
+      double fine = 1.0;
+      if (b.contains("fine")) {
+        int j = b["fine"];
+        fine = 1.0 + (j > 0 ? 1.0 : -1.0) * std::ldexp(1.0, -std::abs(j));
+      }
       for (size_t r = 0; r < 3; ++r)
-        p[r] = q[r] + C.cutoff * double(b["off"][r].get<int>()) / 64.0 +
+        p[r] = q[r] + C.cutoff * double(b["off"][r].get<int>()) / 64.0 * fine +
                (C.B.m[r][0] * s[0] + C.B.m[r][1] * s[1] + C.B.m[r][2] * s[2]);
     } else {
       double s[3];
       for (size_t k = 0; k < 3; ++k) {
         const json &a = b["abs"][k];
-        s[k] = double(a[0].get<long>()) / double(a[1].get<long>()) + double(a[2].get<long>());
+        s[k] = double(a[0].get<long>()) / double(a[1].get<long>());
+        if (a.size() > 3) s[k] *= 1.0 - std::ldexp(1.0, -a[3].get<int>());  // a hair below the cell plane
+        s[k] += double(a[2].get<long>());
       }
       for (size_t r = 0; r < 3; ++r) p[r] = C.B.m[r][0] * s[0] + C.B.m[r][1] * s[1] + C.B.m[r][2] * s[2];
     }
@@ -597,9 +606,21 @@ static json gen_config(int maxbeads, int min_types, int rel_pct) {
   } else {
     cut = json{{"mode", "cells"}, {"dir", ri(0, 2)}, {"n", pick<int>({2, 2, 3, 3, 3, 4, 4, 5, 6, 8})}, {"ulp", ri(-2, 2)}};
   }
+  // face-hugging scenario (12 %): the cutoff is a hair above height/n, bead 0 sits a hair below a cell plane of the
+  // n-cell grid and bead 1 one cutoff*(1 - tiny) further along that direction (two cells apart if the grid is built
+  // with n cells of a thickness just below the cutoff; a distance inside the single-precision rounding of the cutoff)
+  int hug = -1, hug_e = 0, hug_n = 0, hug_k = 0;
+  if (rbool(12)) {
+    hug = ri(0, 2);
+    hug_e = pick<int>({24, 25, 26, 28});
+    hug_n = pick<int>({4, 4, 5, 6, 7, 8});
+    hug_k = ri(1, hug_n - 2);
+    cut = json{{"mode", "cells"}, {"dir", hug}, {"n", hug_n}, {"ulp", 0}, {"relexp", hug_e}};
+  }
   double cutoff = cutoff_of(B, cut);
   std::array<long, 3> N = cells_of(B, cutoff);
-  if (N[0] * N[1] * N[2] > 30000) {  // keep the grid set-up cheap: fall back to a large cutoff
+  if (N[0] * N[1] * N[2] > 30000) {
+    hug = -1;  // keep the grid set-up cheap: fall back to a large cutoff
     cut = json{{"mode", "frac"}, {"k", 48}};
     cutoff = cutoff_of(B, cut);
     N = cells_of(B, cutoff);
@@ -619,6 +640,32 @@ static json gen_config(int maxbeads, int min_types, int rel_pct) {
     b["mol"] = mol;
     auto shift = [&] { return far ? gen_shift(60, rbool(10)) : 0; };
     int mode = ri(0, 99);
+    if (hug >= 0 && i == 0) {
+      json abs = json::array();
+      for (int k = 0; k < 3; ++k) {
+        if (k == hug)
+          abs.push_back({hug_k, hug_n, shift(), hug_e + 5});
+        else
+          abs.push_back({ri(0, 4095), 4096, shift()});
+      }
+      b["abs"] = abs;
+      b["t"] = 0;
+      beads.push_back(b);
+      continue;
+    }
+    if (hug >= 0 && i == 1) {
+      json off = json::array();
+      for (int k = 0; k < 3; ++k) off.push_back(k == hug ? 64 : 0);
+      b["rel"] = 0;
+      b["off"] = off;
+      b["fine"] = -(hug_e + 2);
+      b["sh"] = {shift(), shift(), shift()};
+      b["t"] = 0;
+      if (nmol >= 2 && rbool(50)) mol = std::max(mol, 1);
+      b["mol"] = mol;
+      beads.push_back(b);
+      continue;
+    }
     if (i > 0 && mode < rel_pct) {
       // mostly a recent bead (likely the same molecule, so that exclusions matter), sometimes any earlier one
       b["rel"] = rbool(70) ? i - 1 - ri(0, std::min(3, i - 1)) : ri(0, i - 1);
@@ -627,6 +674,7 @@ static json gen_config(int maxbeads, int min_types, int rel_pct) {
       if (om < 2) {  // along one axis at ~exactly one cutoff: distance tie
         int ax = ri(0, 2), len = pick<int>({63, 64, 64, 65}) * (rbool() ? 1 : -1);
         for (int k = 0; k < 3; ++k) off.push_back(k == ax ? len : 0);
+        if (std::abs(len) == 64 && rbool(50)) b["fine"] = (rbool() ? 1 : -1) * ri(26, 36);  // cutoff * (1 +- 1e-8..1e-11)
       } else {
         int amp = om < 6 ? 40 : 64;
         for (int k = 0; k < 3; ++k) off.push_back(ri(-amp, amp));
